@@ -347,7 +347,7 @@ package vegeta
 //@   inline
 
 //@ func NewRoundRobinDecoder$1
-//@   property C13 C16 C17
+//@   property C13 C16 C17 C09
 //@   uses rot_injective
 //@   returns (err)
 //@   requires [at-least-one] len(dec) >= 1
@@ -916,7 +916,7 @@ package vegeta
 // JSON decoder: only a complete, newline-terminated line is ever handed to the unmarshaller; when the
 // line read fails (torn last line, end of stream) the function returns before touching *r.
 //@ func NewJSONDecoder$1
-//@   property C09 C16
+//@   property C09 C16 C08 C17
 //@   returns (err)
 //@   requires [non-nil] r != nil && rd != nil
 //@   modifies *r, *rd, ghost(bytesleft, rd)
